@@ -71,6 +71,12 @@ func ParseAlignmentAuto(r *bufio.Reader, rootinputstrict bool) (al align.Alignme
 // If the alignment comes from a file for exemple, the file will be closed by this function, so no need to
 // do it in the calling function
 func ParseMultiAlignmentsAuto(f io.Closer, r *bufio.Reader, rootinputstrict bool, alphabet int) (alchan *align.AlignChannel, format int, err error) {
+	return ParseMultiAlignmentsAutoIgnore(f, r, rootinputstrict, alphabet, align.IGNORE_NONE)
+}
+
+// Same as ParseMultiAlignmentsAuto, with the policy to apply to sequences having
+// the same name (align.IGNORE_NONE, align.IGNORE_NAME or align.IGNORE_SEQUENCE)
+func ParseMultiAlignmentsAutoIgnore(f io.Closer, r *bufio.Reader, rootinputstrict bool, alphabet int, ignoreidentical int) (alchan *align.AlignChannel, format int, err error) {
 	var al align.Alignment
 	var firstbyte byte
 
@@ -85,7 +91,7 @@ func ParseMultiAlignmentsAuto(f io.Closer, r *bufio.Reader, rootinputstrict bool
 	}
 	// First test Fasta format
 	if firstbyte == '>' {
-		if al, err = fasta.NewParser(r).Alphabet(alphabet).Parse(); err != nil {
+		if al, err = fasta.NewParser(r).Alphabet(alphabet).IgnoreIdentical(ignoreidentical).Parse(); err != nil {
 			return
 		}
 		format = align.FORMAT_FASTA
@@ -96,7 +102,7 @@ func ParseMultiAlignmentsAuto(f io.Closer, r *bufio.Reader, rootinputstrict bool
 		}
 		close(alchan.Achan)
 	} else if firstbyte == '#' {
-		if al, err = nexus.NewParser(r).Alphabet(alphabet).Parse(); err != nil {
+		if al, err = nexus.NewParser(r).Alphabet(alphabet).IgnoreIdentical(ignoreidentical).Parse(); err != nil {
 			return
 		}
 		format = align.FORMAT_NEXUS
@@ -107,7 +113,7 @@ func ParseMultiAlignmentsAuto(f io.Closer, r *bufio.Reader, rootinputstrict bool
 		}
 		close(alchan.Achan)
 	} else if firstbyte == 'C' {
-		if al, err = clustal.NewParser(r).Alphabet(alphabet).Parse(); err != nil {
+		if al, err = clustal.NewParser(r).Alphabet(alphabet).IgnoreIdentical(ignoreidentical).Parse(); err != nil {
 			return
 		}
 		format = align.FORMAT_CLUSTAL
@@ -122,7 +128,7 @@ func ParseMultiAlignmentsAuto(f io.Closer, r *bufio.Reader, rootinputstrict bool
 		// Finally test Phylip
 		alchan.Achan = make(chan align.Alignment, 15)
 		go func() {
-			phylip.NewParser(r, rootinputstrict).Alphabet(alphabet).ParseMultiple(alchan)
+			phylip.NewParser(r, rootinputstrict).Alphabet(alphabet).IgnoreIdentical(ignoreidentical).ParseMultiple(alchan)
 			if f != nil {
 				f.Close()
 			}
